@@ -92,3 +92,13 @@ def _pot16(f):
     return False
   return any(t in ('ADD', 'SUB') and _act16(m)
              for t, m in zip(f.get('types', []), f.get('modes') or []))
+
+
+@trigger('graph_output_renamed_by_inserted_op')
+def _out_renamed(f):
+  """A QUANTIZE/DEQUANTIZE was inserted at a graph output and the new output
+  tensor is named '<original>_dequant' / '<original>_quantized' (+ '_k')."""
+  o, n = f.get('orig'), f.get('new')
+  if not o or not n or not f.get('via_inserted'):
+    return False
+  return re.fullmatch(re.escape(o) + r'_(dequant|quantized)(_\d+)?', n) is not None
